@@ -102,8 +102,14 @@ func (w *c18World) initial(op, state string, seed int64) *envfs.FS {
 		dmg(scen.Dmg{Op: "delrec", F: 0})
 		dmg(scen.Dmg{Op: "ovw", F: 0, At: 1})
 	case "two":
-		dmg(scen.Dmg{Op: "del", F: 0})
-		dmg(scen.Dmg{Op: "ins", F: 1, At: 2, N: 1})
+		// two files need rewriting and capacity suffices: one deleted, one shifted (PAR1: two deleted, 2 volumes)
+		if w.fmtName == "p2" {
+			dmg(scen.Dmg{Op: "del", F: 1})
+			dmg(scen.Dmg{Op: "ins", F: 0, At: 0, N: 1})
+		} else {
+			dmg(scen.Dmg{Op: "del", F: 0})
+			dmg(scen.Dmg{Op: "del", F: 2})
+		}
 	}
 	return fs
 }
@@ -285,6 +291,20 @@ func c18Run(ci interface{}, r *core.Rec) {
 		for _, d := range envfs.Diff(before, fs.Snapshot()) {
 			if !failed[d] && !okw[d] {
 				viol("fault-altered-unwritten-file", "%s: %q changed although it was not being written", tag, d)
+			}
+		}
+		// C02's write oracle also holds when Repair fails: every completed write carries exactly the
+		// protected bytes and is listed in the (partial) result
+		if c.Op == "repair" || c.Op == "repairdc" {
+			orig := map[string][]byte{}
+			for i, p := range w.paths {
+				orig[p] = w.data[i]
+			}
+			for _, b := range scen.CheckWritesGeneric(orig, res.log, res.paths, before, fs.Snapshot()) {
+				if b[0] == "repair-wrote-wrong-bytes" {
+					continue // a torn write is recorded with the full intended data; judged above
+				}
+				viol(b[0]+"(under-fault)", "%s: %s", tag, b[1])
 			}
 		}
 		return true
